@@ -20,11 +20,13 @@ def imbalance (s : App) : Bool :=
 def staleEntry (s : App) (v : Val) : Bool :=
   (entriesOf s v.op).any (fun p => p != powerOf v.tokens)
 
-/-- a zero-token, un-jailed validator record whose `(0, op)` entry sorts before the entry of a live
-    validator that owns only a power-0 entry -/
+/-- state entering x/staking's EndBlocker: an un-jailed zero-power record owns a `(0, r)` entry that sorts before a
+    `(0, w)` entry a live validator `w` still needs (its only entries, or the second visit of a validator updated
+    in this block): the loop's `break` hides `w` -/
 def zeroShadow (s : App) : Bool :=
   s.vals.any (fun r => r.tokens < PR && !r.jailed && (entriesOf s r.op).contains 0 &&
-    s.vals.any (fun v => v.tokens ≥ PR && !v.jailed && r.op < v.op && (entriesOf s v.op).all (· == 0)))
+    s.vals.any (fun w => w.tokens ≥ PR && !w.jailed && r.op < w.op && (entriesOf s w.op).contains 0 &&
+      ((entriesOf s w.op).all (· == 0) || s.updated.contains w.op)))
 
 /-- the entries a validator keeps after the next BeginBlocker (which deletes the entry at the
     current power of every validator updated in this block) -/
